@@ -92,6 +92,20 @@ func runHandle(cs string) string {
 	for k := 0; k < nups; k++ {
 		cfg.Upstreams = append(cfg.Upstreams, router.UpstreamConfig{Tag: fmt.Sprintf("u%d", k), Addr: "udp://127.0.0.1:9"})
 	}
+	// shared domain sets (several rules may refer to the same set)
+	if sv, ok := m["sets"]; ok && sv != "-" {
+		for i, set := range strings.Split(sv, ";") {
+			handleCfgSeq++
+			fp := filepath.Join(handleTmp, fmt.Sprintf("set%d_%d.txt", handleCfgSeq, i))
+			var sb strings.Builder
+			for _, nh := range strings.Split(set, ",") {
+				sb.WriteString("domain:" + dotted(unhex(nh)) + "\n")
+			}
+			os.WriteFile(fp, []byte(sb.String()), 0o600)
+			defer os.Remove(fp)
+			cfg.DomainSets = append(cfg.DomainSets, router.DomainSetConfig{Tag: fmt.Sprintf("s%d", i), Files: []string{fp}})
+		}
+	}
 	if m["rules"] != "-" {
 		for i, rs := range strings.Split(m["rules"], ";") {
 			f := strings.Split(rs, "/")
@@ -99,7 +113,9 @@ func runHandle(cs string) string {
 				return "bad-case"
 			}
 			rc := router.RuleConfig{Reverse: f[1] == "1", Reject: uint16(atoi(f[2]))}
-			if f[0] != "*" {
+			if f[0] != "*" && f[0][0] == 's' {
+				rc.Domain = f[0]
+			} else if f[0] != "*" {
 				handleCfgSeq++
 				fp := filepath.Join(handleTmp, fmt.Sprintf("ds%d_%d.txt", handleCfgSeq, i))
 				var sb strings.Builder
@@ -216,12 +232,29 @@ func genHandle(r *rand.Rand, thorough bool, emit func(c, cat string)) {
 			toks = append(toks, "addr=6:"+hexs(b))
 		}
 		nups := 1 + r.Intn(3)
+		// shared domain sets
+		nsets := r.Intn(3)
+		var sets []string
+		for j := 0; j < nsets; j++ {
+			var ds []string
+			for k := 1 + r.Intn(2); k > 0; k-- {
+				ds = append(ds, hexs(handleNames[r.Intn(len(handleNames))]))
+			}
+			sets = append(sets, strings.Join(ds, ","))
+		}
+		if nsets == 0 {
+			toks = append(toks, "sets=-")
+		} else {
+			toks = append(toks, "sets="+strings.Join(sets, ";"))
+		}
 		// rules
 		nr := r.Intn(5)
 		var rules []string
 		for j := 0; j < nr; j++ {
 			d := "*"
-			if r.Intn(4) > 0 {
+			if nsets > 0 && r.Intn(2) == 0 {
+				d = fmt.Sprintf("s%d", r.Intn(nsets)) // consecutive rules often share a set, with and without reverse
+			} else if r.Intn(4) > 0 {
 				var ds []string
 				for k := 1 + r.Intn(2); k > 0; k-- {
 					ds = append(ds, hexs(handleNames[r.Intn(len(handleNames))]))
@@ -236,7 +269,7 @@ func genHandle(r *rand.Rand, thorough bool, emit func(c, cat string)) {
 			if r.Intn(5) > 0 {
 				fw = fmt.Sprint(r.Intn(nups))
 			}
-			rules = append(rules, fmt.Sprintf("%s/%d/%d/%s", d, r.Intn(4)/3, rej, fw))
+			rules = append(rules, fmt.Sprintf("%s/%d/%d/%s", d, r.Intn(3)/2, rej, fw))
 		}
 		if len(rules) == 0 {
 			toks = append(toks, "rules=-")
@@ -256,7 +289,7 @@ func genHandle(r *rand.Rand, thorough bool, emit func(c, cat string)) {
 		}
 		rd, qr, op := 1, 0, 0
 		cat := "supported"
-		switch r.Intn(12) {
+		switch r.Intn(30) {
 		case 0:
 			rd, cat = 0, "notimp"
 		case 1:
@@ -267,7 +300,7 @@ func genHandle(r *rand.Rand, thorough bool, emit func(c, cat string)) {
 		id := r.Intn(65536)
 		toks = append(toks, fmt.Sprintf("h=%d,%d,%d,0,%d,%d,%d,%d,%d,0", id, qr, op, r.Intn(2), rd, r.Intn(2), r.Intn(2), r.Intn(2)))
 		nq := 1
-		switch r.Intn(12) {
+		switch r.Intn(30) {
 		case 0:
 			nq, cat = 0, "notimp"
 		case 1:
